@@ -453,7 +453,10 @@ class Parser:
         except:
             return utils.latex_error('could not find UTF-8 character "' + c
                                     + '"', tok.pos, self.latex, self.parms)
-        return [defs.TextToken(tok.pos, u, pos_fix=tok.pos_fix)] + args
+        # NB: the result may consist of two characters (letter + combining
+        # accent, e.g. for \~{l}): all of them stand for the accent macro
+        return [defs.TextToken(tok.pos, u,
+                        pos_fix=tok.pos_fix or len(u) > 1)] + args
 
     #   open an environment
     #
